@@ -631,6 +631,8 @@ pub fn check_c15_cancel(case: &CancelCase, w: usize) -> CheckResult {
             o.code,
             o.failed,
             o.statuses.get(&format!("c0|{}", bad)).cloned(),
+            // (the quiet task is still asleep when its sibling fails: it is cancelled either way)
+            o.statuses.get(&format!("c0|{}", quiet)).cloned(),
             o.logs.get(&format!("c0|{}|stdout", quiet)).cloned(),
         )
     };
@@ -639,7 +641,7 @@ pub fn check_c15_cancel(case: &CancelCase, w: usize) -> CheckResult {
     if reference.failed != Some(true) {
         return inconclusive(format!("the reference run did not fail as planned: {}", ref_out.brief()));
     }
-    if judged(&reference).3.as_deref() != Some(String::from_utf8_lossy(&quiet_line).as_ref()) {
+    if judged(&reference).4.as_deref() != Some(String::from_utf8_lossy(&quiet_line).as_ref()) {
         // (what a cancelled task wrote seconds before the failure is stored on the unchanged tree;
         // if that ever stops being the case without a listener, this sub-check has no reference)
         return inconclusive("without a listener the quiet task's line is not in its stored log".into());
@@ -930,7 +932,7 @@ non-trivial = the listener was connected and died in the middle of the run; dist
     ctx.drive_all(
         "failure-under-contention",
         cancel_cases(ctx.thorough()),
-        "a task fails while 3-16 chatty siblings queue for the listener connection (each flush holds it 0.9-4 s); judged: exit status, failed flag, the failing task's status and the stored log of a task that wrote its only line seconds earlier",
+        "a task fails while 3-16 chatty siblings queue for the listener connection (each flush holds it 0.9-4 s); judged: exit status, failed flag, the failing task's status, and status and stored log of a task that wrote its only line seconds earlier and is asleep when the sibling fails",
         check_c15_cancel,
     );
 }
